@@ -52,6 +52,9 @@ PAIRS = [('EUR', 'USD'), ('USD', 'EUR'), ('USD', 'HKD'), ('HKD', 'JPY'), ('JPY',
          ('USD', 'USD'), ('JPY', 'USD')]
 
 
+MID_PAIRS = [('USD', 'EUR'), ('EUR', 'USD'), ('USD', 'HKD')]
+
+
 def setup(mode):
     C.import_catalogue()
     import quantity.money  # noqa: F401
@@ -69,6 +72,9 @@ def jobs(tier, seed):
                     dep = depth + 1          # deeper histories from the two most overlapping entries
                 out.append({'fn': 'history', 'cfg': {'kind': kind, 'first': first, 'depth': dep, 'default_date': dflt},
                             'opts': {'budget_s': 200 if tier == 'quick' else 1200}})
+        for first in (0, 1):
+            out.append({'fn': 'history', 'cfg': {'kind': kind, 'first': first, 'depth': depth, 'default_date': False, 'mid': True},
+                        'opts': {'budget_s': 200 if tier == 'quick' else 1200}})
     out.append({'fn': 'empty_converter', 'cfg': {}})
     for kind in ('year', 'month', 'day'):
         out.append({'fn': 'moving_clock', 'cfg': {'kind': kind}})
@@ -129,7 +135,12 @@ def history(E, cfg):
     pool = list(POOLS[kind]) + ['other-kind', 'invalid']
     ref = {}                    # (period, currency code) -> Fraction rate
     ref_kind = None
+    a = E.rational('a', 'dec')
     for step in range(cfg['depth']):
+        if cfg.get('mid') and step >= 1:
+            # look-ups between the updates (an answer given earlier must not stick)
+            for x, y in MID_PAIRS:
+                _lookup(E, cfg, conv, cur, ref, d, a, x, y)
         idx = cfg['first'] if step == 0 else E.choice('u%d' % step, list(range(len(pool))))
         entry = pool[idx]
         before = _snapshot(conv)
@@ -172,8 +183,7 @@ def history(E, cfg):
         if stop:
             break
     # ---- look-ups
-    a = E.rational('a', 'dec')
-    for x, y in PAIRS:
+    for x, y in (MID_PAIRS + [('HKD', 'JPY')] if cfg.get('mid') else PAIRS):
         _lookup(E, cfg, conv, cur, ref, d, a, x, y)
 
 
